@@ -4,6 +4,7 @@ import (
 	"fmt"
 	"math/rand"
 	"reflect"
+	"strings"
 	"time"
 
 	hessian "github.com/vogo/gohessian"
@@ -143,8 +144,22 @@ func graphCheck(env *Env, res *Result, c Case, sub int, val interface{}, feats [
 	var wire []byte
 	var encErr error
 	cpu0 := mon.CPUSeconds()
+	untyped := false
+	for _, f := range feats {
+		if f == "untyped-lists" {
+			untyped = true
+		}
+	}
 	pi, _ := Guard(func() {
 		tm, nm = hessian.ExtractTypeNameMap(val)
+		if untyped {
+			// a name map that registers classes only: every slice is written as an untyped list
+			for k, v := range nm {
+				if strings.HasPrefix(k, "[") || strings.HasPrefix(v, "[") {
+					delete(nm, k)
+				}
+			}
+		}
 		wire, encErr = hessian.ToBytes(val, nm)
 	})
 	if d := mon.CPUSeconds() - cpu0; d > 5 && nodes <= 200 {
@@ -292,10 +307,37 @@ func (c04) Run(c Case, env *Env) Result {
 					}
 				}
 			}
+			gfeats := []string{"random-graph", fmt.Sprintf("nodes<=%d", (n/50+1)*50)}
+			// the same slice held by several nodes (also by a node that is an element of it)
+			if r.Intn(3) == 0 {
+				for k := 1 + r.Intn(3); k > 0; k-- {
+					a, b := nodes[r.Intn(n)], nodes[r.Intn(n)]
+					if len(a.Kids) > 0 {
+						b.Kids = a.Kids
+						gfeats = append(gfeats, "shared-kids-slice")
+					}
+				}
+			}
+			// a list longer than the decoder's preallocation bound, with a cycle through it
+			if j%16 == 5 {
+				long := make([]*zoo.GNode, 1100+r.Intn(200))
+				for i := range long {
+					long[i] = nodes[r.Intn(n)]
+				}
+				nodes[0].Kids = long
+				nodes[r.Intn(n)].Kids = long
+				gfeats = append(gfeats, "long-shared-list")
+			}
+			if j%3 == 1 {
+				gfeats = append(gfeats, "untyped-lists")
+			}
 			env.J(c.Idx, j)
 			res.NT = append(res.NT, Hash64(fmt.Sprintf("rand|%d|%d", c.Seed, j)))
 			res.Max("graph_nodes", int64(n))
-			graphCheck(env, &res, c, j, nodes[0], []string{"random-graph", fmt.Sprintf("nodes<=%d", (n/50+1)*50)}, n)
+			for _, f := range gfeats[2:] {
+				res.Count(f, 1)
+			}
+			graphCheck(env, &res, c, j, nodes[0], gfeats, n)
 		}
 	case "shr":
 		lo, hi := subRange(c)
@@ -341,6 +383,9 @@ func (c04) Run(c Case, env *Env) Result {
 				s.PS = &ps
 				s.P1 = ps
 				feats = append(feats, "ptr-to-slice")
+			}
+			if r.Intn(3) == 0 {
+				feats = append(feats, "untyped-lists")
 			}
 			env.J(c.Idx, j)
 			res.NT = append(res.NT, Hash64(fmt.Sprint(feats)))
